@@ -301,7 +301,7 @@ fn check(c: &Case, obs: &mut Obs) -> Result<(), String> {
         obs.nontrivial();
     }
     // tensor-based checks: exact only, small sizes
-    if a.all_phases_quarter() && b.all_phases_quarter() && a.n <= 4 && b.n <= 4 {
+    if a.all_phases_quarter() && b.all_phases_quarter() && a.n <= 3 && b.n <= 3 {
         let r = guarded("equal_circuit_tensor", || eq::equal_circuit_tensor(&qa, &qb))?;
         if r != t.equal {
             return Err(format!(
